@@ -182,6 +182,33 @@ def run(ctx, rep):
             rep.problem("features", "predict accepted a wrong number of features", where, "feature-count", True)
         except ValueError:
             pass
+        # ---- fit honours random_state: same seed (int, numpy integer, RandomState in the same state, a clone, the same object
+        #      fitted again) => same model and same predictions
+        def model_of(est):
+            net = getattr(est, "net_", None)
+            net_d = "" if net is None else repr((sorted(map(int, net._inputs)), [sorted(map(int, h)) for h in net._hidden_layers], sorted(map(int, net._outputs)),
+                                                 np.asarray(net._connects).tolist(), np.asarray(net._weights).tolist(), sorted((int(a), int(b)) for a, b in net._activs.items())))
+            return (str(getattr(est, "tree_", "")), net_d, np.asarray(est.predict(X)).tolist())
+        ref_model = model_of(m)
+        from sklearn.base import clone as sk_clone
+        variants = [("a new estimator with the same integer seed", lambda: E.make(name, n_iter=n_iter, pop_size=pop, random_state=seed, **kw)),
+                    ("random_state=RandomState(seed)", lambda: E.make(name, n_iter=n_iter, pop_size=pop, random_state=np.random.RandomState(seed), **kw)),
+                    ("the same estimator fitted a second time", lambda: m),
+                    ("sklearn.base.clone of the fitted estimator", lambda: sk_clone(m))]
+        for label, mk in (variants if not ctx.quick else [variants[1], variants[ctx.rng.choice([0, 2, 3])]]):
+            try:
+                m2 = mk()
+                np.random.seed(ctx.rng.randrange(1 << 30))        # unrelated generator state must not matter
+                m2.fit(X.copy(), y.copy())
+                got_model = model_of(m2)
+            except Exception as e:   # noqa: BLE001
+                rep.problem("seed", f"{label}: fit raised {type(e).__name__}: {e}", dict(where, variant=label), "refit-raised", True, None, repr(e), "C18")
+                continue
+            rep.traces += 1
+            rep.count("same-seed", (name, seed, label))
+            if got_model != ref_model:
+                rep.problem("seed", f"same random_state, different fitted model or predictions ({label})", dict(where, variant=label), "seed-not-honoured", True,
+                            got_model[0][:200], ref_model[0][:200], "C18")
         if len(rep.samples) < 3:
             rep.sample(dict(where, train_error=train_err, first_predictions=list(map(str, pred[:4]))))
     # ---- reserved optimizer arguments are rejected
